@@ -27,7 +27,7 @@ def parse_bad(out, tag):
 
 def tv_run(prop, tier, replay_path, *, harness_dirs, pkg, test, trace_module, tag, batches,
            env_of, cfg_extra="", mc=(), level="model_checking", what, sig_of=None,
-           assumptions=(), build_name=None, stats_tag=None, samples_keep=6, race=False, owns=None, merge_into_existing=False):
+           assumptions=(), build_name=None, stats_tag=None, samples_keep=6, race=False, owns=None, merge_into_existing=False, sig_ctx=None, max_workers=14):
     """batches: list of dicts (per-batch parameters); env_of(batch, seed, out) -> env for the driver."""
     t0 = time.time()
     seed = env_seed()
@@ -66,7 +66,7 @@ def tv_run(prop, tier, replay_path, *, harness_dirs, pkg, test, trace_module, ta
             return b, out, stats, pr, res.distinct
 
         results = []
-        with cf.ThreadPoolExecutor(max_workers=14) as ex:
+        with cf.ThreadPoolExecutor(max_workers=max_workers) as ex:
             for r in ex.map(one, list(enumerate(batches))):
                 results.append(r)
         events = 0
@@ -95,7 +95,10 @@ def tv_run(prop, tier, replay_path, *, harness_dirs, pkg, test, trace_module, ta
                 rp = save_replay(prop, "%s-s%d-t%d.json" % (test, seed, t),
                                  {"kind": test, "seed": seed, "batch": b, "trace": t, "at": i, "op": op,
                                   "fields": fields, "events": lines[max(0, i - 15):i + 1]})
-                sig = sig_of(op, fields) if sig_of else "%s:%s" % (prop, op)
+                if sig_ctx:
+                    sig = sig_ctx(op, fields, lines, i)
+                else:
+                    sig = sig_of(op, fields) if sig_of else "%s:%s" % (prop, op)
                 verdict.violation(sig, "%s (trace %d step %d, op %s, differing: {%s})" % (what, t, i, op, fields), rp)
         # exhaustive model checking of the specification's own invariants
         states = transitions = 0
